@@ -23,7 +23,10 @@ if argv[0] == "--base":
 src = Path(argv[0])
 name = argv[1]
 props = argv[2:]
-ROOT = Path("/verif")
+import os
+ROOT = Path(__file__).resolve().parent.parent
+REPO = os.environ.get("SEED_REPO", "/repo")  # a scratch clone may be used while /repo is busy
+PYP = f"PYTHONPATH={REPO}/src "
 ALL = [json.loads(l)["id"] for l in (ROOT / "properties.jsonl").read_text().splitlines() if l.strip()]
 have = {c["property_id"] for c in json.loads((ROOT / "MANIFEST.json").read_text())["checks"]}
 if props == ["--all"]:
@@ -35,46 +38,46 @@ def sh(cmd, **kw):
 
 
 def demo():
-    r = sh(f"cd /repo && PYTHONPATH=/repo/src /venv/bin/python {src}/demo.py")
+    r = sh(f"cd {REPO} && {PYP}/venv/bin/python {src}/demo.py")
     return r.returncode, (r.stdout + r.stderr).strip().splitlines()[-3:]
 
 
-assert sh("git -C /repo status --porcelain").stdout.strip() == "", "repo not clean"
+assert sh(f"git -C {REPO} status --porcelain").stdout.strip() == "", "repo not clean"
 meta = json.loads((src / "meta.json").read_text())
 base = base or meta.get("base")
 res = {"ran": time.strftime("%Y-%m-%d %H:%M:%S")}
 if base:
     # the change was written against an earlier commit of /repo (a later fix touches the same lines)
-    sh(f"git -C /repo checkout {base} -- src")
+    sh(f"git -C {REPO} checkout {base} -- src")
     res["base"] = base
     meta["base"] = base
 rc, out = demo()
 res["demo_clean"] = {"exit": rc, "tail": out}
-ap = sh(f"git -C /repo apply {src}/patch.diff")
+ap = sh(f"git -C {REPO} apply {src}/patch.diff")
 if ap.returncode != 0:
     print("PATCH DOES NOT APPLY", ap.stderr)
-    sh("git -C /repo checkout HEAD -- src")
+    sh(f"git -C {REPO} checkout HEAD -- src")
     sys.exit(3)
 try:
-    t = sh("cd /repo && /venv/bin/python -m pytest -q -p no:cacheprovider --no-cov 2>&1 | tail -1")
+    t = sh(f"cd {REPO} && {PYP}/venv/bin/python -m pytest -q -p no:cacheprovider --no-cov 2>&1 | tail -1")
     res["tests_with_patch"] = t.stdout.strip()
     rc, out = demo()
     res["demo_patched"] = {"exit": rc, "tail": out}
     res["checks"] = {}
     for p in props:
         t0 = time.time()
-        r = sh(f"cd /verif && ./check {p} --tier quick")
+        r = sh(f"cd {ROOT} && VERIF_REPO={REPO} ./check {p} --tier quick")
         sigs = [l.strip() for l in r.stdout.splitlines() if l.startswith("  C")]
         res["checks"][p] = {"exit": r.returncode, "wall_s": round(time.time() - t0, 1), "signatures": [s.split(": ", 1)[0] for s in sigs][:8], "first": (sigs[0][:400] if sigs else "")}
         print(f"  [{p}] exit={r.returncode} {res['checks'][p]['signatures'][:3]}")
         if r.returncode == 2:
             print(r.stderr[-800:])
 finally:
-    sh("git -C /repo checkout HEAD -- src && git -C /repo checkout -- . && git -C /repo clean -fdq src")
-    sh("rm -rf /verif/replays/*/found")
+    sh(f"git -C {REPO} checkout HEAD -- src && git -C {REPO} checkout -- . && git -C {REPO} clean -fdq src")
+    sh(f"rm -rf {ROOT}/replays/*/found")
     # evidence files were rewritten by runs against the mutant: restore the committed ones
-    sh("cd /verif && git checkout -- evidence 2>/dev/null")
-assert sh("git -C /repo status --porcelain").stdout.strip() == "", "repo not clean after revert"
+    sh(f"cd {ROOT} && git checkout -- evidence 2>/dev/null")
+assert sh(f"git -C {REPO} status --porcelain").stdout.strip() == "", "repo not clean after revert"
 ok = res["demo_clean"]["exit"] == 0 and res["demo_patched"]["exit"] != 0 and res["tests_with_patch"].startswith("225 passed")
 res["confirmed"] = ok
 caught = [p for p, c in res["checks"].items() if c["exit"] == 1]
